@@ -3,6 +3,8 @@ package props
 import (
 	"bytes"
 	"fmt"
+	"os"
+	"path/filepath"
 	"testing"
 
 	"filippo.io/age"
@@ -338,6 +340,58 @@ func c03Check(c c03Case, st *stats.Run) error {
 	return nil
 }
 
+// c03CheckCLI: the same edits through the age command: a file whose header was
+// altered (and not re-MACed under the true key) is refused and no output file appears.
+func c03CheckCLI(c c03Case, st *stats.Run) error {
+	bin := os.Getenv("VERIF_BIN")
+	if bin == "" {
+		return nil
+	}
+	p := hx.ThePool()
+	f, owner, plain := c03Base(c)
+	origHdr := f.Header.Marshal()
+	hdr, _, _ := c03Apply(f, owner, c.Edit, c.Seed)
+	changed := !bytes.Equal(hdr, origHdr)
+	if changed && (bytes.HasPrefix(hdr, origHdr) || c.Edit.MAC == "truekey") {
+		return nil
+	}
+	_, _, perr := refage.ParseHeader(hdr)
+	file := append(append(append([]byte{}, hdr...), f.Nonce...), f.Payload...)
+	dir, err := os.MkdirTemp(".", "c03cli-")
+	if err != nil {
+		return pbt.Failf("C03/harness", "%v", err)
+	}
+	dir, _ = filepath.Abs(dir)
+	defer os.RemoveAll(dir)
+	os.WriteFile(filepath.Join(dir, "in.age"), file, 0o644)
+	st.Case(changed && perr == nil, stats.HashJSON(c), "cli", "cli:edit="+c.Edit.Kind, "cli:mac="+c.Edit.MAC, fmt.Sprintf("cli:parses=%v", perr == nil))
+	st.Sample("cli/edit="+c.Edit.Kind, c)
+	done := map[string]bool{}
+	for i, r := range c.Recs {
+		if !r.Real() || r.Kind == "scrypt" || done[r.String()] {
+			continue
+		}
+		done[r.String()] = true
+		os.WriteFile(filepath.Join(dir, "key.txt"), c01KeyFile(p, r), 0o600)
+		os.Remove(filepath.Join(dir, "out.dat"))
+		code, _, stderr := runCLI(dir, []string{"PATH=/nonexistent", "HOME=" + dir}, nil, filepath.Join(bin, "age"), "-d", "-i", "key.txt", "-o", "out.dat", "in.age")
+		if code == -2 {
+			return nil
+		}
+		out, rerr := os.ReadFile(filepath.Join(dir, "out.dat"))
+		if !changed {
+			if code != 0 || !bytes.Equal(out, plain) {
+				return pbt.Failf("C03/control-rejected", "age -d of the unedited file for %s: exit %d (%s)", r, code, trunc([]byte(stderr)))
+			}
+			continue
+		}
+		if code == 0 || rerr == nil {
+			return pbt.Failf("C03/altered-header-accepted", "age -d of a file whose header was altered by %+v, with the key of recipient #%d (%s): exit %d, output file created: %v (%d bytes)", c.Edit, i, r, code, rerr == nil, len(out))
+		}
+	}
+	return nil
+}
+
 func c03GenRecs(t *rapid.T) []hx.RecSpec {
 	if rapid.IntRange(0, 7).Draw(t, "scryptFile") == 0 {
 		return []hx.RecSpec{{Kind: "scrypt", Pass: genPass(t), WF: rapid.IntRange(1, 4).Draw(t, "wf")}}
@@ -494,5 +548,10 @@ func TestC03(t *testing.T) {
 		}
 		s.St.Exhaust("files whose ssh-rsa / X25519 / ssh-ed25519 stanza body begins with a zero byte (3 per type): leading zeros stripped, a zero byte added in front or at the end", int64(n))
 	}, check)
+	pbt.Rapid(s, "edits-cli", s.N(150, 1000), func(t *rapid.T) c03Case {
+		c := c03Gen(t)
+		c.PlainLen = rapid.SampledFrom([]int{0, 100}).Draw(t, "cliPlainLen")
+		return c
+	}, func(c c03Case) error { return c03CheckCLI(c, s.St) })
 	pbt.Rapid(s, "edits", s.N(5000, 30000), c03Gen, check)
 }
